@@ -230,6 +230,17 @@ func (u *Unit) ghostAsserts(done ast.Stmt, st *State) {
 			k = i
 		}
 	}
+	if k < 0 && u.caseClause != nil && u.fd != nil && u.fd.Body != nil {
+		// a case unit runs on to the end of the function: a top-level statement after the switch
+		// is addressed through the function's own block (`assert @K` there)
+		for i, s := range u.fd.Body.List {
+			if s == done {
+				if fb := u.g.C.forFunc(funcKey(u.fd)); fb != nil {
+					k, b, body = i, fb, u.fd.Body.List
+				}
+			}
+		}
+	}
 	if k < 0 {
 		// a statement of a loop body: addressed as @L<loop ordinal>.<statement ordinal>
 		var root ast.Node
